@@ -31,7 +31,7 @@ NOT_DECIDED = ("'declares at least as many variables as the formula uses': _num_
 def sampling_set_lines(ctx, rule="C27.sampling-set"):
     f = ctx.fn("cnf:CNF.as_unigen_string")
     F = Facts(f)
-    fact(ctx, rule, f, "chunks", F.assigns("support_chunks"), ["[[n for n in support_set[idx:10 + idx]] for idx in range(0, len(support_set), 10)]"],
+    fact(ctx, rule, f, "chunks", F.assigns("support_chunks"), ["[[_b1 for _b1 in support_set[_b0:10 + _b0]] for _b0 in range(0, len(support_set), 10)]"],
          "the sampling set is split into consecutive chunks of ten covering the whole list")
     st = [s for s in F.stmts if isinstance(s, ast.Assign) and dotted(s.targets[0]) == "support_string"]
     ctx.require(len(st) == 1, "as_unigen_string: support_string not found")
@@ -86,7 +86,7 @@ def check(ctx):
               ast.unparse(gen.generators[0].iter) in ("reversed(self._vals)", "self._vals") and not gen.generators[0].ifs, R, f, "clause line %r" % skeleton(parts),
               "every clause is written as its literals followed by ' 0' and a newline", "clause line format is %r over %s" % (skeleton(parts), ast.unparse(gen.generators[0].iter)))
     f = ctx.fn("cnf:Clause.__str__")
-    fact(ctx, R, f, "Clause.__str__", Facts(f).returns(), ["' '.join([str(var) for var in self])"], "literals separated by single blanks, all of them")
+    fact(ctx, R, f, "Clause.__str__", Facts(f).returns(), ["' '.join([str(_b0) for _b0 in self])"], "literals separated by single blanks, all of them")
     f = ctx.fn("cnf:Var.__str__")
     fact(ctx, R, f, "Var.__str__", Facts(f).returns(), ["str(self._val)"], "a literal prints as its signed integer")
     # readers
@@ -127,8 +127,8 @@ def check(ctx):
     # ---- blocking clause
     R = "C27.blocking"
     F = Facts(u)
-    fact(ctx, R, u, "negation", F.assigns("negated_solution"), ["[-var for var in solution]"], "every element of the recorded solution is negated, nothing else")
-    fact(ctx, R, u, "terminator", F.assigns("negated_solution_str"), ["' '.join([str(var) for var in concat([-var for var in solution], [0])])"], "blank-separated, terminated by 0")
+    fact(ctx, R, u, "negation", F.assigns("negated_solution"), ["[-_b0 for _b0 in solution]"], "every element of the recorded solution is negated, nothing else")
+    fact(ctx, R, u, "terminator", F.assigns("negated_solution_str"), ["' '.join([str(_b0) for _b0 in concat([-_b0 for _b0 in solution], [0])])"], "blank-separated, terminated by 0")
     ul = [s for s in F.stmts if isinstance(s, ast.Assign) and dotted(s.targets[0]) == "updated_lines"]
     ctx.check(len(ul) == 1 and ast.unparse(ul[0].value) == "[updated_header] + lines[1:] + [negated_solution_str]", R, u, "file layout",
               "new header, all earlier lines, then the blocking clause", "updated file is assembled as %s" % (ast.unparse(ul[0].value) if ul else "?"))
@@ -158,7 +158,7 @@ def check(ctx):
     ctx.check(codes == ["10", "20"], R, g, "return codes", "10 satisfiable / 20 unsatisfiable as the CLI", "wrapper return codes are %s" % codes)
     cs_ = ctx.fn("cryptominisat:cryptominisat_solve")
     F = Facts(cs_)
-    ctx.check(F.returns() == ["[]", "[int(p) for p in ''.join([line for line in map(str.strip, call_cryptominisat(input_file, docker_mode)[0].strip().splitlines()) if line.startswith('v')]).replace('v', '').split()]", "None"],
+    ctx.check(F.returns() == ["[]", "[int(_b0) for _b0 in ''.join([_b0 for _b0 in map(str.strip, call_cryptominisat(input_file, docker_mode)[0].strip().splitlines()) if _b0.startswith('v')]).replace('v', '').split()]", "None"],
               R, cs_, "solve parse", "unsatisfiable -> []; satisfiable -> the ints of the 'v' lines; unknown -> None", "cryptominisat_solve returns %s" % F.returns())
     tests = [t for t in F.tests()]
     ctx.check(tests == ["(call_cryptominisat(input_file, docker_mode)[1] is CryptoMiniSATReturnCode.Unsatisfiable)",
@@ -175,7 +175,7 @@ def check(ctx):
         ctx.check(cs2 == ["v ", term], R, w, "sample line %s" % cs2, "sample line = 'v ' + literals + %r" % term, "%s writes sample lines %s" % (w.qual, cs2), st[0])
     b = ctx.fn("sample_uniform:build_solution")
     F = Facts(b)
-    ctx.check(F.assigns("assignment") == ["[int(p) for p in line.replace('v', '').strip().split()[:-1]]"] and
+    ctx.check(F.assigns("assignment") == ["[int(_b0) for _b0 in line.replace('v', '').strip().split()[:-1]]"] and
               F.assigns("frequency") == ["int(line.replace('v', '').strip().split()[-1].split(':')[-1])"], R, b, "build_solution",
               "assignment = all tokens but the last (terminator[:frequency]); frequency = part after ':'", "build_solution changed: %s / %s" % (F.assigns("assignment"), F.assigns("frequency")))
     cm = ctx.fn("tools.unigen:call_cmsgen_python")
